@@ -338,9 +338,14 @@ func (l *ledGen) buildBlock(parent string) *gBlock {
 		case k < 3 && len(l.pool) > 0: // double-spend a pending tx
 			t := l.pool[l.r.Intn(len(l.pool))]
 			c := t.ins[l.r.Intn(len(t.ins))]
+			if l.r.Intn(2) == 0 { // prefer a conflict through a coin that is not a wallet's
+				if ft, fc, ok := l.foreignSpend(b); ok {
+					t, c = ft, fc
+				}
+			}
 			if _, ok := b.utxo[c.key()]; ok && l.spendableIn(c, b.height) {
 				kind := ""
-				if l.r.Intn(3) == 0 {
+				if l.r.Intn(3) == 0 || (l.foreign(c) && l.r.Intn(2) == 0) {
 					kind = "foreign"
 				}
 				ds := l.makeTx([]gCoin{c}, kind)
